@@ -322,8 +322,12 @@ pub fn judge_c15(cx: &DeliveryCtx, out: &mut RunOut) {
     };
     // jurisdiction: requests that are rightly accepted (whether a request should have been
     // accepted at all is for the other properties)
-    if *cx.expected != Verdict::Accept {
+    let near_limit_but_authentic = cx.detail.near_limit && cx.detail.sig_ok == Some(true) && matches!(cx.expected, Verdict::Unspecified(_));
+    if *cx.expected != Verdict::Accept && !near_limit_but_authentic {
         return;
+    }
+    if near_limit_but_authentic {
+        out.probe("accepted_near_uri_limit_compared");
     }
     out.probe("accepted_compared");
     let submitted = match cx.wire.to_request() {
@@ -648,7 +652,12 @@ pub fn judge_c14(cx: &DeliveryCtx, out: &mut RunOut) {
                         "SignatureError::Internal" => e.kind == "InternalServiceError",
                         _ => e.kind == "InternalServiceError",
                     };
-                    if !ok || e.status != 500 || e.display != msg {
+                    let want_text = if libi::FOREIGN_KINDS[*k] == "KeyTooLongError" {
+                        "Key too long".to_string()
+                    } else {
+                        msg.clone()
+                    };
+                    if !ok || e.status != 500 || e.display != want_text {
                         out.violate("C14", "foreign-error-becomes-internal-500", format!("provider failed with {} {:?}, caller got {}; {}", libi::FOREIGN_KINDS[*k], msg, cx.out.short(), ctx_line(cx)));
                     }
                 }
